@@ -13,8 +13,8 @@ def flagsOf (env : FeatEnv) (ob : Bool) : BoolMap :=
   addBorderToFeatures env ob (addSharpAnglesToFeatures env ob (addHardEdgesToFeatures env ob []))
 
 /-- **resets**: what the attributes `feature` held before and the detector's earlier containers do not matter -/
-theorem run_history_free (env : FeatEnv) (v2e : Nat → List Nat) (ob : Bool) (fv0 fe0 : Option BoolMap) :
-    run env v2e ob fv0 fe0 = run env v2e ob none none := by
+theorem run_history_free (env : FeatEnv) (v2e : Nat → List Nat) (ob : Bool) (fv0 fe0 : Option BoolMap) (fc : Bool) (ce : CornerEnv) (tp : Rat) (od : Nat) (c0 cm : IntMap) :
+    run env v2e ob fv0 fe0 fc ce tp od c0 cm = run env v2e ob none none fc ce tp od c0 cm := by
   cases fv0 <;> cases fe0 <;> rfl
 
 theorem setAdd_fold_mem (l init : List Nat) (v : Nat) : v ∈ l.foldl setAdd init ↔ v ∈ init ∨ v ∈ l := by
@@ -31,19 +31,19 @@ theorem mem_boolKeys (m : BoolMap) (v : Nat) : v ∈ boolKeys m ↔ v ∈ m := b
 theorem nodup_boolKeys (m : BoolMap) : (boolKeys m).Nodup := setAdd_fold_nodup _ _ List.nodup_nil
 
 /-! ### loop 1: `feature_edges`, `feature_vertices` -/
-theorem loop1 (env : FeatEnv) (v2e : Nat → List Nat) (ob : Bool) (a b : Option BoolMap) (l : List Nat) :
+theorem loop1 (env : FeatEnv) (v2e : Nat → List Nat) (ob : Bool) (a b : Option BoolMap) (fc : Bool) (ce : CornerEnv) (tp : Rat) (od : Nat) (c0 cm : IntMap) (l : List Nat) :
     ∀ fe fv : List Nat,
-      (∀ e, e ∈ (l.foldl (run_for1_step env v2e ob a b) (fe, fv)).1 ↔ e ∈ fe ∨ e ∈ l) ∧
-      (fe.Nodup → (l.foldl (run_for1_step env v2e ob a b) (fe, fv)).1.Nodup) ∧
-      (∀ v, v ∈ (l.foldl (run_for1_step env v2e ob a b) (fe, fv)).2 ↔
+      (∀ e, e ∈ (l.foldl (run_for1_step env v2e ob a b fc ce tp od c0 cm) (fe, fv)).1 ↔ e ∈ fe ∨ e ∈ l) ∧
+      (fe.Nodup → (l.foldl (run_for1_step env v2e ob a b fc ce tp od c0 cm) (fe, fv)).1.Nodup) ∧
+      (∀ v, v ∈ (l.foldl (run_for1_step env v2e ob a b fc ce tp od c0 cm) (fe, fv)).2 ↔
         v ∈ fv ∨ ∃ e ∈ l, v = (env.edge e).1 ∨ v = (env.edge e).2) ∧
-      (fv.Nodup → (l.foldl (run_for1_step env v2e ob a b) (fe, fv)).2.Nodup) := by
+      (fv.Nodup → (l.foldl (run_for1_step env v2e ob a b fc ce tp od c0 cm) (fe, fv)).2.Nodup) := by
   induction l with
   | nil => intro fe fv; simp
   | cons x l ih =>
     intro fe fv
     rw [List.foldl_cons]
-    have hstep : run_for1_step env v2e ob a b (fe, fv) x =
+    have hstep : run_for1_step env v2e ob a b fc ce tp od c0 cm (fe, fv) x =
         (setAdd fe x, setAdd (setAdd fv (env.edge x).1) (env.edge x).2) := rfl
     rw [hstep]
     obtain ⟨h1, h2, h3, h4⟩ := ih (setAdd fe x) (setAdd (setAdd fv (env.edge x).1) (env.edge x).2)
@@ -67,9 +67,9 @@ theorem loop1 (env : FeatEnv) (v2e : Nat → List Nat) (ob : Bool) (a b : Option
     · intro h; exact h4 (nodup_setAdd _ _ (nodup_setAdd _ _ h))
 
 /-! ### loops 2 and 3: `local_feat_edges` -/
-theorem loop3 (env : FeatEnv) (v2e : Nat → List Nat) (ob : Bool) (a b : Option BoolMap) (flags : BoolMap) (v : Nat)
+theorem loop3 (env : FeatEnv) (v2e : Nat → List Nat) (ob : Bool) (a b : Option BoolMap) (fc : Bool) (ce : CornerEnv) (tp : Rat) (od : Nat) (c0 cm : IntMap) (flags : BoolMap) (v : Nat)
     (l : List (Nat × Nat)) : ∀ (acc : List Nat) (d : LocDict),
-      (l.map fun p => (p.2, p.1)).foldl (run_for3_step env v2e ob a b flags v) ((v, acc) :: d) =
+      (l.map fun p => (p.2, p.1)).foldl (run_for3_step env v2e ob a b fc ce tp od c0 cm flags v) ((v, acc) :: d) =
         (v, acc ++ (l.filter fun x => flags.contains x.1).map (·.2)) :: d := by
   induction l with
   | nil => intro acc d; simp
@@ -78,23 +78,23 @@ theorem loop3 (env : FeatEnv) (v2e : Nat → List Nat) (ob : Bool) (a b : Option
     rw [List.map_cons, List.foldl_cons]
     by_cases hm : x.1 ∈ flags
     · have hc : flags.contains x.1 = true := by simpa using hm
-      have hstep : run_for3_step env v2e ob a b flags v ((v, acc) :: d) (x.2, x.1) = (v, acc ++ [x.2]) :: d := by
+      have hstep : run_for3_step env v2e ob a b fc ce tp od c0 cm flags v ((v, acc) :: d) (x.2, x.1) = (v, acc ++ [x.2]) :: d := by
         simp [run_for3_step, boolGet, hm, locAppend]
       rw [hstep, ih]; simp [List.filter_cons, hm]
     · have hc : flags.contains x.1 = false := by simpa using hm
-      have hstep : run_for3_step env v2e ob a b flags v ((v, acc) :: d) (x.2, x.1) = (v, acc) :: d := by
+      have hstep : run_for3_step env v2e ob a b fc ce tp od c0 cm flags v ((v, acc) :: d) (x.2, x.1) = (v, acc) :: d := by
         simp [run_for3_step, boolGet, hm]
       rw [hstep, ih]; simp [List.filter_cons, hm]
 
-theorem loop2 (env : FeatEnv) (v2e : Nat → List Nat) (ob : Bool) (a b : Option BoolMap) (flags : BoolMap) (l : List Nat) :
-    ∀ d : LocDict, ∀ v, locGet (l.foldl (run_for2_step env v2e ob a b flags) d) v =
+theorem loop2 (env : FeatEnv) (v2e : Nat → List Nat) (ob : Bool) (a b : Option BoolMap) (fc : Bool) (ce : CornerEnv) (tp : Rat) (od : Nat) (c0 cm : IntMap) (flags : BoolMap) (l : List Nat) :
+    ∀ d : LocDict, ∀ v, locGet (l.foldl (run_for2_step env v2e ob a b fc ce tp od c0 cm flags) d) v =
       if v ∈ l then some (localFeat flags (v2e v)) else locGet d v := by
   induction l with
   | nil => intro d v; simp
   | cons x l ih =>
     intro d v
     rw [List.foldl_cons, ih]
-    have hstep : run_for2_step env v2e ob a b flags d x = (x, localFeat flags (v2e x)) :: d := by
+    have hstep : run_for2_step env v2e ob a b fc ce tp od c0 cm flags d x = (x, localFeat flags (v2e x)) :: d := by
       simp only [run_for2_step]
       rw [loop3]
       simp [localFeat]
@@ -108,49 +108,57 @@ theorem loop2 (env : FeatEnv) (v2e : Nat → List Nat) (ob : Bool) (a b : Option
         simp [locGet, List.find?_cons, this, hx]
 
 /-! ### the run -/
-theorem run_fe_fv (env : FeatEnv) (v2e : Nat → List Nat) (ob : Bool) (a b : Option BoolMap) :
-    (∀ e, e ∈ (run env v2e ob a b).2.1 ↔ e ∈ flagsOf env ob) ∧ (run env v2e ob a b).2.1.Nodup ∧
-    (∀ v, v ∈ (run env v2e ob a b).1 ↔ ∃ e ∈ flagsOf env ob, v = (env.edge e).1 ∨ v = (env.edge e).2) ∧
-    (run env v2e ob a b).1.Nodup := by
+theorem run_fe_fv (env : FeatEnv) (v2e : Nat → List Nat) (ob : Bool) (a b : Option BoolMap) (fc : Bool) (ce : CornerEnv) (tp : Rat) (od : Nat) (c0 cm : IntMap) :
+    (∀ e, e ∈ (run env v2e ob a b fc ce tp od c0 cm).2.1 ↔ e ∈ flagsOf env ob) ∧ (run env v2e ob a b fc ce tp od c0 cm).2.1.Nodup ∧
+    (∀ v, v ∈ (run env v2e ob a b fc ce tp od c0 cm).1 ↔ ∃ e ∈ flagsOf env ob, v = (env.edge e).1 ∨ v = (env.edge e).2) ∧
+    (run env v2e ob a b fc ce tp od c0 cm).1.Nodup := by
   rw [run_history_free]
-  obtain ⟨h1, h2, h3, h4⟩ := loop1 env v2e ob none none (boolKeys (flagsOf env ob)) [] []
+  obtain ⟨h1, h2, h3, h4⟩ := loop1 env v2e ob none none fc ce tp od c0 cm (boolKeys (flagsOf env ob)) [] []
   refine ⟨?_, h2 List.nodup_nil, ?_, h4 List.nodup_nil⟩
   · intro e
-    show e ∈ (List.foldl (run_for1_step env v2e ob none none) ([], []) (boolKeys (flagsOf env ob))).1 ↔ _
+    show e ∈ (List.foldl (run_for1_step env v2e ob none none fc ce tp od c0 cm) ([], []) (boolKeys (flagsOf env ob))).1 ↔ _
     rw [h1, mem_boolKeys]; simp
   · intro v
-    show v ∈ (List.foldl (run_for1_step env v2e ob none none) ([], []) (boolKeys (flagsOf env ob))).2 ↔ _
+    show v ∈ (List.foldl (run_for1_step env v2e ob none none fc ce tp od c0 cm) ([], []) (boolKeys (flagsOf env ob))).2 ↔ _
     rw [h3]; simp only [List.not_mem_nil, false_or, mem_boolKeys]
 
 /-- `feature_degrees` is the fold of `+= 1` on both end points over `feature_edges` -/
-theorem run_deg (env : FeatEnv) (v2e : Nat → List Nat) (ob : Bool) (a b : Option BoolMap) :
-    (run env v2e ob a b).2.2.1 =
-      (run env v2e ob a b).2.1.foldl (fun d e => bump (bump d (env.edge e).1) (env.edge e).2) [] := by
+theorem run_deg (env : FeatEnv) (v2e : Nat → List Nat) (ob : Bool) (a b : Option BoolMap) (fc : Bool) (ce : CornerEnv) (tp : Rat) (od : Nat) (c0 cm : IntMap) :
+    (run env v2e ob a b fc ce tp od c0 cm).2.2.1 =
+      (run env v2e ob a b fc ce tp od c0 cm).2.1.foldl (fun d e => bump (bump d (env.edge e).1) (env.edge e).2) [] := by
   rw [run_history_free]; rfl
 
 /-- `local_feat_edges[v]` for a feature vertex: the positions, in `vertex_to_edges(v)`, of the flagged edges -/
-theorem run_loc (env : FeatEnv) (v2e : Nat → List Nat) (ob : Bool) (a b : Option BoolMap) (v : Nat) :
-    locGet (run env v2e ob a b).2.2.2.1 v =
-      if v ∈ (run env v2e ob a b).1 then some (localFeat (flagsOf env ob) (v2e v)) else none := by
+theorem run_loc (env : FeatEnv) (v2e : Nat → List Nat) (ob : Bool) (a b : Option BoolMap) (fc : Bool) (ce : CornerEnv) (tp : Rat) (od : Nat) (c0 cm : IntMap) (v : Nat) :
+    locGet (run env v2e ob a b fc ce tp od c0 cm).2.2.2.1 v =
+      if v ∈ (run env v2e ob a b fc ce tp od c0 cm).1 then some (localFeat (flagsOf env ob) (v2e v)) else none := by
   rw [run_history_free]
-  show locGet (List.foldl (run_for2_step env v2e ob none none (flagsOf env ob)) [] _) v = _
+  show locGet (List.foldl (run_for2_step env v2e ob none none fc ce tp od c0 cm (flagsOf env ob)) [] _) v = _
   rw [loop2]; rfl
 
 /-- the vertex attribute `feature` ends up flagging exactly the feature vertices -/
-theorem run_featV (env : FeatEnv) (v2e : Nat → List Nat) (ob : Bool) (a b : Option BoolMap) (v : Nat) :
-    v ∈ (run env v2e ob a b).2.2.2.2.1 ↔ v ∈ (run env v2e ob a b).1 := by
+theorem run_featV (env : FeatEnv) (v2e : Nat → List Nat) (ob : Bool) (a b : Option BoolMap) (fc : Bool) (ce : CornerEnv) (tp : Rat) (od : Nat) (c0 cm : IntMap) (v : Nat) :
+    v ∈ (run env v2e ob a b fc ce tp od c0 cm).2.2.2.2.1 ↔ v ∈ (run env v2e ob a b fc ce tp od c0 cm).1 := by
   rw [run_history_free]
-  have : ∀ (l : List Nat) (m : BoolMap), l.foldl (run_for5_step env v2e ob none none) m = m ++ l := by
+  have : ∀ (l : List Nat) (m : BoolMap), l.foldl (run_for5_step env v2e ob none none fc ce tp od c0 cm) m = m ++ l := by
     intro l
     induction l with
     | nil => intro m; simp
     | cons x l ih => intro m; rw [List.foldl_cons, ih]; simp [run_for5_step, boolSet]
-  show v ∈ List.foldl (run_for5_step env v2e ob none none) [] _ ↔ _
+  show v ∈ List.foldl (run_for5_step env v2e ob none none fc ce tp od c0 cm) [] _ ↔ _
   rw [this, List.nil_append]
   exact Iff.rfl
 
-theorem run_featE (env : FeatEnv) (v2e : Nat → List Nat) (ob : Bool) (a b : Option BoolMap) :
-    (run env v2e ob a b).2.2.2.2.2 = flagsOf env ob := by
+theorem run_featE (env : FeatEnv) (v2e : Nat → List Nat) (ob : Bool) (a b : Option BoolMap) (fc : Bool) (ce : CornerEnv) (tp : Rat) (od : Nat) (c0 cm : IntMap) :
+    (run env v2e ob a b fc ce tp od c0 cm).2.2.2.2.2.1 = flagsOf env ob := by
   rw [run_history_free]; rfl
+
+/-- `self.corners` at the end: what the translated `_flag_corners` computes on the feature vertices (from the mesh attribute
+`corners` as it was) when `flag_corners` is set, the detector's previous value otherwise -/
+theorem run_corners (env : FeatEnv) (v2e : Nat → List Nat) (ob : Bool) (a b : Option BoolMap) (fc : Bool) (ce : CornerEnv) (tp : Rat) (od : Nat) (c0 cm : IntMap) :
+    (run env v2e ob a b fc ce tp od c0 cm).2.2.2.2.2.2 =
+      if fc then flagCorners ce tp od (run env v2e ob a b fc ce tp od c0 cm).1 cm else c0 := by
+  rw [run_history_free]
+  cases fc <;> rfl
 
 end Mouette.Lemmas.C15RunSource
